@@ -22,36 +22,7 @@ def run(ctx, sess):
     ctx.rule('C15.4', 'reconstruction covers what may be omitted: exact arms for u8/u4/u1 and float types, every arm counts what it fills; automatic omission applies to widths <= 8')
     ctx.rule('C15.6', 'automatic omission is decided only by a predicate that examines every byte of the block (a stored block is never replaced by a synthesised one unless it is constant)')
     ctx.rule('C15.5', 'the omission state is stored only by the API entry and by the per-block shift')
-    f = P.fn('wr_data', 'src/wr_fsr.c')
-    ctx.saw(f)
-    # the branch
-    br = None
-    for b in f.blocks.values():
-        e = strip_casts(b.cond) if b.cond else None
-        if e is not None and e.get('op') == 'ref' and e.get('name') == 'omit_data' and len(b.succs) == 2:
-            br = b
-    if br is None:
-        raise AnalysisBroken('wr_data: `if (omit_data)` branch not found')
-    # ---- C15.1
-    defs, entry = df.reaching_defs(f, 'omit_data', br, len(br.events))
-    ok = bool(defs) and not entry
-    detail = []
-    for d in defs:
-        lhs, rhs, o = d.store_parts()
-        masked = False
-        if o == '&=' and rhs is not None:
-            for nd in walk(rhs):
-                if nd.get('op') == 'member' and nd.get('field') == 'offset':
-                    p = f.path(nd)
-                    if p is not None and '.data_head' in tuple(p):
-                        masked = True
-        elif o == '=' and rhs is not None:
-            r0 = strip_casts(rhs)
-            if r0.get('op') == 'bin' and r0['o'] in ('&&', '&') and any(nd.get('op') == 'member' and nd.get('field') == 'offset' and '.data_head' in tuple(f.path(nd) or ()) for nd in walk(r0)):
-                masked = True
-        detail.append('%s@%d %s' % (o, d.ln, 'masked' if masked else 'NOT masked'))
-        ok = ok and masked
-    ctx.ob('C15.1', ok, f.name, 'omit_data masked by "a data chunk already exists"', '%s:%d' % (f.file, br.line), '; '.join(detail) or 'no definition')
+    f, br = first_block_stored(ctx, P, 'C15.1')
     # ---- C15.2
     need = {
         'summary': lambda e2: e2.k == 'call' and e2.callee == 'jls_core_fsr_summary1',
@@ -159,3 +130,37 @@ def run(ctx, sess):
     init = [d for d in f.stores() if (d.k == 'decl' and d.name == 'omit_data')]
     ok = bool(init) and any(nd.get('op') == 'member' and nd.get('field') == 'write_omit_data' for nd in walk(init[0].e or {}))
     ctx.ob('C15.5', ok, f.name, 'request feeds the omit decision', f.where(), '')
+
+
+def first_block_stored(ctx, P, rule):
+    f = P.fn('wr_data', 'src/wr_fsr.c')
+    ctx.saw(f)
+    # the branch
+    br = None
+    for b in f.blocks.values():
+        e = strip_casts(b.cond) if b.cond else None
+        if e is not None and e.get('op') == 'ref' and e.get('name') == 'omit_data' and len(b.succs) == 2:
+            br = b
+    if br is None:
+        raise AnalysisBroken('wr_data: `if (omit_data)` branch not found')
+    # ---- C15.1
+    defs, entry = df.reaching_defs(f, 'omit_data', br, len(br.events))
+    ok = bool(defs) and not entry
+    detail = []
+    for d in defs:
+        lhs, rhs, o = d.store_parts()
+        masked = False
+        if o == '&=' and rhs is not None:
+            for nd in walk(rhs):
+                if nd.get('op') == 'member' and nd.get('field') == 'offset':
+                    p = f.path(nd)
+                    if p is not None and '.data_head' in tuple(p):
+                        masked = True
+        elif o == '=' and rhs is not None:
+            r0 = strip_casts(rhs)
+            if r0.get('op') == 'bin' and r0['o'] in ('&&', '&') and any(nd.get('op') == 'member' and nd.get('field') == 'offset' and '.data_head' in tuple(f.path(nd) or ()) for nd in walk(r0)):
+                masked = True
+        detail.append('%s@%d %s' % (o, d.ln, 'masked' if masked else 'NOT masked'))
+        ok = ok and masked
+    ctx.ob(rule, ok, f.name, 'omit_data masked by "a data chunk already exists"', '%s:%d' % (f.file, br.line), '; '.join(detail) or 'no definition')
+    return f, br
